@@ -464,6 +464,13 @@ class FATDirectoryEntry:
             if entry.get_short_name() == name:
                 return entry
 
+        # Entries without a long name are stored upper-cased and FAT
+        # names are not case sensitive: find them by any spelling
+        for entry in dirs+files:
+            if entry.lfn_entry is None and \
+                    entry.get_short_name() == name.upper():
+                return entry
+
         raise PyFATException(f'Cannot find entry {name}',
                              errno=errno.ENOENT)
 
